@@ -86,6 +86,22 @@ def main():
     missed = [sid for sid, prop, res in rows
               if not any(isinstance(r, dict) and r.get('exit') == 1
                          for r in res.values())]
+    expected = []
+    for sid in list(missed):
+        try:
+            m = json.load(open(os.path.join(VERIF, 'seeded', sid,
+                                            'meta.json')))
+        except Exception:
+            continue
+        if m.get('not_detected_reason'):
+            expected.append(sid)
+            missed.remove(sid)
+    with open(os.path.join(VERIF, 'seeded', 'RESULTS.md'), 'a') as f:
+        f.write('\nDocumented as not detected (meta.json '
+                '`not_detected_reason`): %s\n' % (', '.join(expected) or
+                                                  'none'))
+        f.write('Unexpectedly missed: %s\n' % (', '.join(missed) or 'none'))
+    print('documented misses:', expected)
     print('missed:', missed)
     return 1 if missed else 0
 
